@@ -8,7 +8,7 @@ cells, it does not compute on them); the KEYS are the symbolic inputs.  Oracle: 
 indexing on a list-of-rows model (vf.refmodels)."""
 from vf.cond import Cond
 from vf import layouts
-from vf.refmodels import obs_container, ref_frame_select, py_positions
+from vf.refmodels import obs_container, ref_frame_select, py_positions, coherent_labels
 
 CONDS = {}
 ASSUMPTIONS = ['cells concrete and distinct; labels concrete distinct ints/strs; keys symbolic']
@@ -53,6 +53,9 @@ def run_select(env, f, rows, index, columns, rk, ck, via='iloc'):
         else:
             r = f._extract(rk, ck)
         got = obs_container(env, r)
+        if got[0] in 'FS' and exp[0] in 'FS':
+            got = got + [coherent_labels(env, r)]     # the result's own indices find every one of their labels where it is
+            exp = exp + [True]
     except IndexError:
         got = ['raises', 'IndexError']
     except ErrorInitIndexNonUnique:
